@@ -147,4 +147,4 @@ func JNameVerif(c Cursor) string {
 }
 
 // IsEmptyCurVerif tells whether c is the shared cursor returned for a query without sources.
-func IsEmptyCurVerif(c Cursor) bool { return c == emptyCur }
+func IsEmptyCurVerif(c Cursor) bool { _, ok := c.(emptyCursor); return ok }
